@@ -42,6 +42,12 @@ KINDS = {
     "intra": dict(ft=1),
     "external": dict(ft=3),
 }
+# ... and every other pair of rule actions (0 none, 1 allow, 2 drop, 3 reject) on an inter-node flow: the decision looks at
+# BOTH actions (allowed at egress yet rejected at ingress is ready at once; dropped at ingress is not a reason)
+for _i in range(4):
+    for _e in range(4):
+        if not any(k.get("ingress") == _i and k.get("egress") == _e for k in KINDS.values()):
+            KINDS["act-i%d-e%d" % (_i, _e)] = dict(ft=2, ingress=_i, egress=_e)
 
 EXTRAS = [
     (dict(src_ns="nsA", src_node="node1"), dict(dst_ns="nsB", dst_node="node2", cluster="0a600001", svc_port=443, prio=4294967295)),
